@@ -410,6 +410,12 @@ func (p *Program) tableWriters(tb *Table) []string {
 		for _, b := range f.Blocks {
 			for _, ins := range b.Instrs {
 				switch x := ins.(type) {
+				case *ssa.UnOp:
+					if !tb.IsMap && !tb.nested() && x.X == ssa.Value(tb.Global) {
+						// flat slice table: the loaded slice may only be read (indexed, measured), kept in a local or
+						// returned to callers that do the same; then no writable slice shares its backing array
+						bad = append(bad, p.sliceTableUses(x, 0, map[ssa.Value]bool{})...)
+					}
 				case *ssa.Store:
 					if x.Addr == ssa.Value(tb.Global) {
 						bad = append(bad, p.pos(x.Pos())+" store to global")
@@ -695,4 +701,129 @@ func (fc *FuncCtx) linkNestedTable(st *State, tb *Table, v *Term) {
 	rng := And(Le(IntLit(0), bi), Lt(bi, IntLit(int64(len(tb.Entries)))), Le(IntLit(0), bj), Lt(bj, tb.subLen(bi)))
 	facts = append(facts, Forall([]*Term{bi, bj}, Implies(rng, Eq(cellb, val)), []*Term{cellb}))
 	st.assume(And(facts...))
+}
+
+// SliceVal: the value of a slice table: a slice over the reserved table reference.
+// Its cells are never read from the heap: element reads go through valTerm.
+func (tb *Table) SliceVal() *Term {
+	n := IntLit(int64(len(tb.Entries)))
+	return SliceMk(tb.Ref, IntLit(0), n, n)
+}
+
+// tableOfSlice: the slice table a slice term denotes (nil if none)
+func (p *Program) tableOfSlice(t *Term) *Table {
+	if t == nil || t.Op != "mk-slice" {
+		return nil
+	}
+	if tb := p.tableOfRef(t.Args[0]); tb != nil && !tb.IsMap {
+		return tb
+	}
+	return nil
+}
+
+// sliceTableUses follows a slice-table value through locals and returns (to the in-repo call sites,
+// static or through an interface method of the same name) and reports every use that is not a read.
+// Callers outside the repository of an exported function returning the table are not seen (assumption).
+func (p *Program) sliceTableUses(v ssa.Value, depth int, seen map[ssa.Value]bool) (bad []string) {
+	if seen[v] {
+		return nil
+	}
+	seen[v] = true
+	if depth > 6 {
+		return []string{"slice table value flows too deep to follow"}
+	}
+	refs := v.Referrers()
+	if refs == nil {
+		return nil
+	}
+	for _, r := range *refs {
+		switch y := r.(type) {
+		case *ssa.DebugRef:
+		case *ssa.IndexAddr:
+			if y.X != v {
+				bad = append(bad, p.pos(y.Pos())+" slice table used as an index")
+				continue
+			}
+			if y.Referrers() != nil {
+				for _, rr := range *y.Referrers() {
+					if _, dbg := rr.(*ssa.DebugRef); dbg {
+						continue
+					}
+					if ld, ok := rr.(*ssa.UnOp); !ok || ld.Op != token.MUL {
+						bad = append(bad, p.pos(rr.Pos())+" element address of slice table written or escaping")
+					}
+				}
+			}
+		case *ssa.Call:
+			bi, ok := y.Call.Value.(*ssa.Builtin)
+			if !ok || (bi.Name() != "len" && bi.Name() != "cap") {
+				bad = append(bad, p.pos(y.Pos())+" slice table passed to a call")
+			}
+		case *ssa.Phi:
+			bad = append(bad, p.sliceTableUses(y, depth, seen)...)
+		case *ssa.Store:
+			al, ok := y.Addr.(*ssa.Alloc)
+			if !ok || y.Val != v {
+				bad = append(bad, p.pos(y.Pos())+" slice table stored in memory")
+				continue
+			}
+			if al.Referrers() != nil {
+				for _, ar := range *al.Referrers() {
+					switch z := ar.(type) {
+					case *ssa.Store, *ssa.DebugRef:
+					case *ssa.UnOp:
+						if z.Op == token.MUL {
+							bad = append(bad, p.sliceTableUses(z, depth, seen)...)
+						} else {
+							bad = append(bad, p.pos(z.Pos())+" local holding the slice table escapes")
+						}
+					default:
+						bad = append(bad, p.pos(ar.Pos())+" local holding the slice table escapes")
+					}
+				}
+			}
+		case *ssa.Return:
+			fn := y.Parent()
+			idx := -1
+			for i, rv := range y.Results {
+				if rv == v {
+					idx = i
+				}
+			}
+			for _, f := range p.funcs {
+				for _, b := range f.Blocks {
+					for _, ins := range b.Instrs {
+						cv, ok := ins.(ssa.CallInstruction)
+						if !ok {
+							continue
+						}
+						cc := cv.Common()
+						hit := cc.StaticCallee() == fn || (cc.IsInvoke() && cc.Method.Name() == fn.Name())
+						if !hit {
+							continue
+						}
+						val, isVal := ins.(*ssa.Call)
+						if !isVal {
+							bad = append(bad, p.pos(ins.Pos())+" slice table returned to a go/defer call")
+							continue
+						}
+						if len(y.Results) == 1 {
+							bad = append(bad, p.sliceTableUses(val, depth+1, seen)...)
+							continue
+						}
+						if val.Referrers() != nil {
+							for _, er := range *val.Referrers() {
+								if ex, ok := er.(*ssa.Extract); ok && ex.Index == idx {
+									bad = append(bad, p.sliceTableUses(ex, depth+1, seen)...)
+								}
+							}
+						}
+					}
+				}
+			}
+		default:
+			bad = append(bad, p.pos(r.Pos())+" slice table value escapes")
+		}
+	}
+	return bad
 }
